@@ -5,6 +5,9 @@ package main
 
 import (
 	"fmt"
+	"math/bits"
+	"sort"
+	"strings"
 	"sync"
 
 	"github.com/Tom-Johnston/mamba/graph/search"
@@ -119,6 +122,100 @@ func mixedUnions(maxN int) map[string]*BGr {
 		}
 	}
 	return out
+}
+
+// regularUnions: disjoint unions of two non-isomorphic connected regular graphs of the same degree (one of them
+// possibly complete). The union is regular but not vertex transitive, the unit partition is equitable, and the
+// search has to tell the components apart by branching - with strongly regular components whose stabiliser orbits
+// are finer than what refinement sees this is where stale automorphism information does damage.
+func regularUnions(maxN int) map[string]*BGr {
+	hg := hardGraphs()
+	type reg struct {
+		name string
+		g    *BGr
+		d    int
+	}
+	var regs []reg
+	for name, g := range hg {
+		if strings.Contains(name, "u") && name != "circ11_1_3" || strings.Contains(name, "2K4") || strings.Contains(name, "4C4") || strings.Contains(name, "3C4") {
+			continue // already disconnected (or a complement of one)
+		}
+		d := bits.OnesCount64(g.adj[0])
+		ok := true
+		for v := 0; v < g.n; v++ {
+			if bits.OnesCount64(g.adj[v]) != d {
+				ok = false
+			}
+		}
+		if ok && g.n <= 26 {
+			regs = append(regs, reg{name, g, d})
+		}
+	}
+	for d := 2; d <= 12; d++ {
+		regs = append(regs, reg{fmt.Sprintf("K%d", d+1), completeB(d + 1), d})
+		if d%2 == 0 || true {
+			regs = append(regs, reg{fmt.Sprintf("K%d,%d", d, d), circulantBip(d), d})
+		}
+	}
+	sort.Slice(regs, func(i, j int) bool { return regs[i].name < regs[j].name })
+	out := map[string]*BGr{}
+	for i := range regs {
+		for j := i + 1; j < len(regs); j++ {
+			a, b := regs[i], regs[j]
+			if a.d != b.d || a.g.n+b.g.n > maxN || (a.g.n == b.g.n && a.g.key() == b.g.key()) {
+				continue
+			}
+			out[a.name+"|"+b.name] = a.g.union(b.g)
+			out[b.name+"|"+a.name] = b.g.union(a.g)
+		}
+	}
+	return out
+}
+
+// circulantBip returns the complete bipartite graph K(d,d).
+func circulantBip(d int) *BGr {
+	g := newBGr(2 * d)
+	for i := 0; i < d; i++ {
+		for j := 0; j < d; j++ {
+			g.add(i, d+j)
+		}
+	}
+	return g
+}
+
+func c01RegularUnions(c *Ctx) {
+	lcg, maxN := 14, 28
+	if c.Thorough() {
+		lcg, maxN = 400, 44
+	}
+	c.Bound("regular_unions_max_vertices", maxN)
+	gs := regularUnions(maxN)
+	names := make([]string, 0, len(gs))
+	for k := range gs {
+		names = append(names, k)
+	}
+	sortStrings(names)
+	c.SetCount("regular_unions", int64(len(names)))
+	c.parFor(int64(len(names)), 1, func(lo, hi int64) {
+		for _, name := range names[lo:hi] {
+			g := gs[name]
+			base, cl, what := bigCanon(g)
+			edges := g.edgeList()
+			if cl != "" {
+				c.Fail(&Failure{Class: cl, What: name + ": " + what, Kind: "canon-big", Replay: bigCanonCase{Name: name, N: g.n, Edges: edges, Perm: genSigma(g.n)}})
+				continue
+			}
+			for _, p := range relabelBattery(g.n, false, lcg) {
+				x, cl, _ := bigCanon(g.relabel(p))
+				c.Evals(1)
+				c.Nontrivial(1)
+				if cl != "" || x != base {
+					bc := bigCanonCase{Name: "regular-union:" + name, N: g.n, Edges: edges, Perm: p}
+					c.Check(func() *Failure { return checkBigInvariance(bc) })
+				}
+			}
+		}
+	})
 }
 
 func c01Unions(c *Ctx) {
